@@ -1,6 +1,6 @@
 SPECIFICATION Spec
-CONSTANTS MaxOps = 7
-          MaxLen = 5
+CONSTANTS MaxOps = 5
+          MaxLen = 4
 INVARIANT InsertProperty
 INVARIANT VgaIdempotent
 CONSTRAINT Bounded
